@@ -151,7 +151,8 @@ SPEC = PropSpec(
     rule=("THIN (no fault or schedule to inject; the simulator owns only the hash strategy).  one run = a min-mode "
           "sketch (CountMinSketch, HeavyHitters, StreamThreshold) of width {1,2,3,5,8,50} x depth 1..5 or "
           "confidence/error sizing, one of 7 hash strategies incl. a range-squeezed one that makes rows collide, and "
-          "<=50 add(key,n)/legitimate remove(key,n) steps; after every step for every universe key: true <= check <= "
+          "<=50 add(key,n)/legitimate remove(key,n) steps (in half of the runs also: a fresh sketch takes the subject by join "
+          "and is updated on its own; query mode set to mean / mean-min and back); after every step for every universe key: true <= check <= "
           "total, the op's return value equals check, and a key sharing no counter (positions recomputed by the "
           "harness) is exact.  non-trivial = at least two keys shared a counter; distinct = event-log digests"),
     state_measure="distinct (width, depth, keys ever added, collision present) tuples",
